@@ -174,6 +174,12 @@ impl<Body> AmendedRequest<Body> {
         }
         .map_err(|_| Error::BadLocationHeader(location.to_string()))?;
 
+        // A location such as mailto:x@y.test or y.test:8080 resolves to a url without a host.
+        // Read as a plain string below, it would turn into a request to "y.test".
+        if !url.has_host() {
+            return Err(Error::BadLocationHeader(location.to_string()));
+        }
+
         let uri = url
             .to_string()
             .parse::<Uri>()
